@@ -728,6 +728,67 @@ def callable_entries(res):
                     break
 
 
+# -- resolution is per instance ---------------------------------------------------------------------
+
+def per_instance_resolution(res):
+    """The names of a guard are resolved against the providers of *each* instance: an instance
+    whose model / listener lacks a name is rejected with InvalidDefinition however many valid
+    instances of the same class were created before (or after), and the valid ones keep working."""
+    from statemachine import State, StateMachine
+    from statemachine.exceptions import InvalidDefinition
+    from statemachine.factory import StateMachineMetaclass
+    for entry in ("ready", "ok and ready", "not ready", "ready == 1"):
+        for polarity in ("cond", "unless"):
+            for where in ("model", "listener"):
+                for order in (("good", "bad"), ("bad", "good"), ("good", "bad", "good"),
+                              ("good", "good", "bad", "bad")):
+                    sa, sb = State(initial=True), State()
+                    ns = {"st_a": sa, "st_b": sb, "go": sa.to(sb, **{polarity: entry}),
+                          "back": sb.to(sa), "ok": True}
+                    cls = StateMachineMetaclass("MP8", (StateMachine,), ns)
+                    Good = type("Good", (), {"state": None, "ready": 1})
+                    Bad = type("Bad", (), {"state": None})
+                    sc = {"per_instance": [entry, polarity, where, list(order)]}
+                    for k, kind in enumerate(order):
+                        obj = (Good if kind == "good" else Bad)()
+                        res.stats["evaluations"] += 1
+                        try:
+                            sm = cls(obj) if where == "model" else cls(listeners=[obj])
+                            built_ok = True
+                        except InvalidDefinition:
+                            built_ok = False
+                        except Exception as e:   # noqa: BLE001
+                            res.violation({"category": "per-instance-resolution"}, sc,
+                                          f"{polarity}={entry!r}, {where} #{k} ({kind}) of "
+                                          f"{order}: {type(e).__name__}: {e}")
+                            break
+                        if built_ok != (kind == "good"):
+                            res.violation(
+                                {"category": "per-instance-resolution", "where": where}, sc,
+                                f"{polarity}={entry!r}: instance #{k} of {order} has a {where} "
+                                f"{'with' if kind == 'good' else 'without'} `ready` and was "
+                                f"{'accepted' if built_ok else 'rejected'}")
+                            break
+                        if not built_ok:
+                            continue
+                        for v in (1, 0):
+                            obj.ready = v
+                            sm.current_state_value = "st_a"
+                            try:
+                                sm.send("go")
+                                fired = sm.current_state_value == "st_b"
+                            except sm.TransitionNotAllowed:
+                                fired = False
+                            val = eval(entry, {"__builtins__": {}}, {"ok": True, "ready": v})  # noqa: S307
+                            exp = bool(val) == (polarity == "cond")
+                            if fired != exp:
+                                res.violation({"category": "per-instance-resolution"}, sc,
+                                              f"{polarity}={entry!r} on instance #{k} of {order} "
+                                              f"with ready={v}: fires={fired}, expected {exp}")
+                                break
+                        res.hist["per-instance:" + kind] += 1
+
+
 # -- negative space ---------------------------------------------------------------------------------
 
 ALLOWED_NODES = (ast.Expression, ast.BoolOp, ast.And, ast.Or, ast.UnaryOp, ast.Not, ast.Compare,
@@ -899,6 +960,7 @@ def worker(block):
         with deadline(300):
             seam_b_lists(res)
             callable_entries(res)
+            per_instance_resolution(res)
     else:
         _, tier, lo, hi = block
         small = bool_shapes(1) + [("cmp", (atom("a"), atom("b")), ("<=",)),
@@ -968,6 +1030,12 @@ def replay(sc):
     if "negative" in sc:
         e = sc["negative"]
         negative(res, [(e, e.replace("!", " not ").replace("^", " and "))])
+    elif "per_instance" in sc:
+        per_instance_resolution(res)
+        for v in res.violations:
+            if v["scenario"] == sc:
+                return v["message"]
+        return None
     elif "callable_entry" in sc:
         callable_entries(res)
         for v in res.violations:
